@@ -397,7 +397,7 @@ def _cell(prop, shape, tier, tmo, dmax=25, pmax=25, fp=None, weight=2, deco=Fals
 
 # shape -> split level (0 none, 1 pauses, 2 pauses and duration)
 QUICK_SHAPES = {
-    'C03': {'cwc': 0, 'ckpc': 0, 'cpwpc': 0, 'cpc': 0, 'cpcw': 0, 'mpc': 0, 'ipc': 0, 'apc': 2, 'cpa': 2, 'epc': 0},
+    'C03': {'cwc': 0, 'ckpc': 0, 'kpc': 0, 'cpwpc': 0, 'cpc': 0, 'cpcw': 0, 'mpc': 0, 'ipc': 0, 'apc': 2, 'cpa': 2, 'epc': 0},
     'C07': {'cwpcw': 0, 'ckw': 0, 'kpcW': 0, 'cw': 0, 'cW': 0, 'cpw': 0, 'cpW': 0, 'cpcw': 0, 'cbpw': 0, 'cBpc': 0, 'aw': 0, 'gW': 0, 'ew': 0, 'cpbpB': 2, 'ipw': 0},
     'C08': {'e': 0, 'epe': 0, 'cprpr': 2, 'cpc': 0, 'cpcpc': 3, 'mpc': 0, 'cpm': 0, 'cpW': 0, 'ce': 0, 'cpcW': 0},
 }
